@@ -98,8 +98,12 @@ def make_y(pe, basis, n, layout, key):
 
 def gls(A, W, ytilde):
     """p = (A^T W A)^-1 A^T W y, dp/dy = (A^T W A)^-1 A^T W."""
-    H = A.T @ W @ A
-    K = np.linalg.solve(H, A.T @ W)
+    # columns scaled to unit norm first (abscissae of order 1e9 next to a constant column would make A^T W A singular to working precision)
+    d = np.sqrt(np.einsum('ij,ij->j', A, A))
+    d[d == 0] = 1.0
+    As = A / d
+    H = As.T @ W @ As
+    K = np.linalg.solve(H, As.T @ W) / d[:, None]
     return K @ ytilde, K
 
 
@@ -259,6 +263,7 @@ def build(tier, seed):
         cases.append({'kind': 'combined', 'layout': layout})
     cases.append({'kind': 'corrfit'})
     cases.append({'kind': 'misc'})
+    cases.append({'kind': 'scales'})
     for basis in ('lin', 'quad'):
         cases.append({'kind': 'history', 'basis': basis})
     return cases
@@ -286,6 +291,8 @@ def run_case(case):
             run_misc(pe, acc, case)
         elif k == 'history':
             run_history(pe, acc, case)
+        elif k == 'scales':
+            run_scales(pe, acc, case)
     return acc
 
 
@@ -375,6 +382,108 @@ def run_methods_full(pe, acc, case):
             sub = dict(case, num_grad=True, priors=pspec[0], mode=mode)
             one_fit(pe, acc, sub, 'fit-numgrad', basis, x, ys, pspec, mode, {'num_grad': True}, method_tol=1e-4, key=('ngf', basis, layout, pspec[0], mode))
     acc.sample(dict(case, methods=['migrad', 'Nelder-Mead', 'Powell', 'num_grad'], priors='every form', correlation=['off', 'estimated', 'user']))
+
+
+def run_scales(pe, acc, case):
+    """Straight-line fits whose abscissae, ordinates or covariance inputs have another magnitude: the closed form does not care."""
+    f = lambda a, x: a[0] + a[1] * x      # noqa: E731
+    n = 8
+    r = alpha.rng('c07scale')
+    base = [2.0 + 3.0 * (i + 1) + 0.3 * r.normal(size=40) for i in range(n)]
+    # (a) abscissae of order 1e-9 .. 1e9, ordinates of order one (independent and shared ensembles)
+    for xscale in (1e-9, 1e-4, 1e5, 1e9):
+        for layout in ('indep', 'shared'):
+            x = np.arange(1.0, n + 1) * xscale
+            ys = [pe.Obs([b], ['E%d|r1' % i if layout == 'indep' else 'S|r1']) for i, b in enumerate(base)]
+            [y.gamma_method() for y in ys]
+            W = np.diag([1 / y.dvalue ** 2 for y in ys])
+            p, pobs, chisq, K = expected_fit(pe, [[1.0, xv] for xv in x], ys, W, [], 2)
+            sub = dict(case, xscale=xscale, layout=layout)
+            try:
+                # a starting point of the right magnitude (the minimiser's own scaling is not the subject)
+                res = pe.least_squares(x, ys, f, silent=True, initial_guess=[1.0, 1.0 / xscale])
+                bad = compare_fit(pe, res, p, pobs, chisq, n, 2, 0, 1e-4, ys, False)
+            except Exception as e:
+                bad = 'raised %s: %s' % (type(e).__name__, e)
+            if bad:
+                acc.fail('fit-scale:abscissae', sub, 'p0 + p1 x with x of order %g (%s): %s' % (xscale, layout, bad))
+            else:
+                acc.ok(('fs-x', xscale, layout), True, 'fit-scale')
+    # (b) data points that are covariance inputs of small / large magnitude with a strongly correlated matrix, correlated fit
+    C1 = np.array([[0.04 * (0.9 ** abs(i - j)) * (1 + 0.1 * i) * (1 + 0.1 * j) for j in range(6)] for i in range(6)])
+    C1 = 0.5 * (C1 + C1.T)
+    y1 = np.array([1.0 + 0.5 * (i + 1) + 0.05 * ((-1) ** i) for i in range(6)])
+    xs = np.arange(1.0, 7.0)
+    for scale in (1.0, 1e-9, 1e6):
+        yobs = pe.cov_Obs(list(y1 * scale), C1 * scale ** 2, 'cvsyst')
+        [y.gamma_method() for y in yobs]
+        for mode in ('off', 'estimated'):
+            if mode == 'off':
+                W = np.diag([1 / y.dvalue ** 2 for y in yobs])
+                kw = {}
+            else:
+                W = np.linalg.inv(C1 * scale ** 2)
+                kw = {'correlated_fit': True}
+            p, pobs, chisq, K = expected_fit(pe, [[1.0, xv] for xv in xs], yobs, W, [], 2)
+            sub = dict(case, yscale=scale, mode=mode)
+            try:
+                res = pe.least_squares(xs, yobs, f, silent=True, initial_guess=[1.0 * scale, 0.5 * scale], **kw)
+                bad = compare_fit(pe, res, p, pobs, chisq, 6, 2, 0, 1e-4, yobs, mode != 'off')
+            except Exception as e:
+                bad = 'raised %s: %s' % (type(e).__name__, e)
+            if bad:
+                acc.fail('fit-scale:covariance-data', sub, 'covariance-input data of order %g, correlation %s: %s' % (scale, mode, bad))
+            else:
+                acc.ok(('fs-c', scale, mode), True, 'fit-scale')
+    # (c) strongly correlated data on one ensemble (one large common fluctuation, independent ones about 1e5 times smaller): the
+    #     correlation matrix has a condition number of 1e10 .. 1e12, below the library's own warning threshold.  The reference whitens with
+    #     the singular value decomposition of the normalised fluctuations, which resolves the small eigenvalues to full relative precision.
+    for ratio in (1e-4, 1.2e-5, 4e-6):
+        r = alpha.rng('c07strong', ratio)
+        N = 400
+        g = r.normal(size=N)
+        xs6 = np.arange(1.0, 7.0)
+        yobs = []
+        for i, t in enumerate(xs6):
+            m = 1.0 + 0.5 * t
+            yobs.append(pe.Obs([m * (1 + 0.02 * g + 0.02 * ratio * (1 + 0.5 * i) * r.normal(size=N))], ['S|r1']))
+        [y.gamma_method() for y in yobs]
+        dy = np.array([y.dvalue for y in yobs])
+        d = np.array([y.deltas['S|r1'] for y in yobs])
+        dn = d / np.linalg.norm(d, axis=1)[:, None]
+        U, Sv, _ = np.linalg.svd(dn, full_matrices=False)
+        cond = (Sv[0] / Sv[-1]) ** 2
+        Wh = np.diag(1 / Sv) @ U.T @ np.diag(1 / dy)
+        A = np.stack([np.ones(6), xs6], axis=1)
+        Aw = Wh @ A
+        K = np.linalg.pinv(Aw) @ Wh
+        yv = np.array([y.value for y in yobs])
+        pref = K @ yv
+        sub = dict(case, ratio=ratio, condition_number=float('%.3g' % cond))
+        if not 1e7 < cond < 5e12:
+            raise engine.MachineryError('strongly correlated data set has condition number %g' % cond)
+        bad = None
+        try:
+            res = pe.least_squares(xs6, yobs, f, silent=True, correlated_fit=True, initial_guess=[1.0, 0.5])
+            for k in range(2):
+                o = res.fit_parameters[k]
+                o.gamma_method()
+                exp = K[k] @ d
+                got = o.deltas['S|r1']
+                dev = np.max(np.abs(got - exp)) / np.max(np.abs(exp))
+                if not dev <= 1e-3:
+                    bad = 'fluctuations of parameter %d differ from -H^-1 d(grad chi2)/dy . delta y of the documented chi-square by %.2g (relative)' % (k, dev)
+                    break
+                if not abs(o.value - pref[k]) <= 1e-2 * o.dvalue:
+                    bad = 'parameter %d: value %.15g, closed form %.15g (%.2g sigma)' % (k, o.value, pref[k], abs(o.value - pref[k]) / o.dvalue)
+                    break
+        except Exception as e:
+            bad = 'raised %s: %s' % (type(e).__name__, e)
+        if bad:
+            acc.fail('fit-scale:strong-correlation', sub, 'correlated straight-line fit, cond(corr) = %.2g: %s' % (cond, bad))
+        else:
+            acc.ok(('fs-s', ratio), True, 'fit-scale')
+    acc.sample(dict(case, xscales=[1e-9, 1e-4, 1e5, 1e9], covariance_data_scales=[1.0, 1e-9, 1e6], independent_to_common_fluctuation=[1e-4, 1.2e-5, 4e-6]))
 
 
 def run_history(pe, acc, case):
